@@ -925,7 +925,55 @@ def rw_enum(fi, args, spec=None):
     return edits
 
 
+def rw_clospat(fi, args, spec=None):
+    """R-CLOSPAT: `|PAT| E` with a non-variable pattern -> `|__p| { let PAT = __p; E }` (closure literals whose
+    single parameter is a pattern; E extends to the closing delimiter of the enclosing call)."""
+    toks = fi.toks
+    src = fi.sf.src
+    edits = []
+    for cl in fi.closures:
+        b1, b2 = cl['bar1'], cl['bar2']
+        if b2 == b1 + 1:
+            continue
+        if b2 == b1 + 2 and toks[b1 + 1].kind == 'id':
+            continue
+        pat = src[toks[b1 + 1].start:toks[b2].start].strip()
+        if ':' in pat and not pat.startswith('('):
+            continue
+        # body: up to the `)` or `,` closing the enclosing call at depth 0
+        j = b2 + 1
+        while True:
+            t = toks[j]
+            if t.kind == 'punct' and t.text in ('(', '[', '{'):
+                j = match_close(toks, j)
+            elif t.kind == 'punct' and t.text in (')', ',', ']', '}', ';'):
+                break
+            j += 1
+        body = src[toks[b2 + 1].start:toks[j].start].strip()
+        pty = args[2 * len(edits)] if len(args) > 2 * len(edits) else '_'
+        rty = args[2 * len(edits) + 1] if len(args) > 2 * len(edits) + 1 else '_'
+        edits.append((toks[b1].start, toks[j].start, f'|__p: {pty}| -> (r: {rty}) CLOSURE_SPEC_{len(edits)} {{ let {pat} = __p; {body} }}', 'R-CLOSPAT'))
+    if not edits:
+        raise LostAnchor(f'fn {fi.item.name}: R-CLOSPAT did not fire')
+    # splice closure specs
+    out = []
+    for n, e in enumerate(edits):
+        txt = e[2]
+        sp = ''
+        if spec is not None:
+            for anchor, text, org in spec.inserts:
+                if anchor == f'closure {n} spec':
+                    sp = '\n' + text + '\n'
+        if sp:
+            txt = txt.replace(f'CLOSURE_SPEC_{n}', sp)
+        else:
+            txt = txt.replace(f' CLOSURE_SPEC_{n}', '')
+        out.append((e[0], e[1], txt, e[3]))
+    return out
+
+
 REWRITES = {
+    'R-CLOSPAT': rw_clospat,
     'R-ENUM': rw_enum,
     'R-RENAME': rw_rename,
     'R-ASSERT': rw_assert,
@@ -991,7 +1039,7 @@ def emit_fn(gen, sf, item, spec, canary=False, qual='', in_trait=False):
         edits += REWRITES[rule](fi, args, spec)
     has_sig = False
     for anchor, text, org in spec.inserts:
-        if anchor.startswith('mapcollect '):
+        if anchor.startswith('mapcollect ') or anchor.startswith('closure '):
             continue
         off = fi.anchor_offset(anchor)
         if anchor == 'sig':
@@ -1201,8 +1249,8 @@ def generate(unit_path, canaries=True):
         if not w or w[0] == '#':
             i += 1
             continue
-        if w[0] == 'idtype':
-            tmpl = open(os.path.join(VERIF, 'prelude', 'idtype.tmpl')).read()
+        if w[0] in ('idtype', 'idtype64'):
+            tmpl = open(os.path.join(VERIF, 'prelude', 'idtype.tmpl')).read().replace('__REP__', 'u64' if w[0] == 'idtype64' else 'u32')
             tp = os.path.join(VERIF, 'prelude', 'idtype.tmpl')
             for nm in w[1:]:
                 gen.out.nl()
@@ -1218,10 +1266,16 @@ def generate(unit_path, canaries=True):
         elif w[0] == 'impl':
             sf = SrcFile.get(w[1])
             header = d.split(None, 2)[2]
+            emit_as = None
+            if '=>' in header:
+                header, emit_as = [x.strip() for x in header.split('=>')]
             impls = sf.find_impls(header)
-            cur_impl = (sf, impls, header)
+            cur_impl = (sf, impls, emit_as or header)
             im = impls[0]
             hdr = sf.src[sf.toks[im.kw].start:sf.toks[im.body_open].end]
+            if emit_as:
+                hdr = emit_as + ' {'
+                gen.rewrites.append((f'R-INHERENT `{header}` emitted as `{emit_as}`', sf.rel, line_of(sf.src, sf.toks[im.kw].start)))
             base = line_of(sf.src, sf.toks[im.kw].start)
             gen.out.nl()
             gen.out.add(hdr + '\n', lambda k, base=base, rel=sf.rel: ('repo', rel, base + k))
